@@ -45,8 +45,10 @@ def install():
     _installed = True
 
 
-def clear_query_caches():
-    """Drop every process-wide translation cache (always legal: a cache may be cold)."""
+def clear_query_caches(between_runs=False):
+    """Drop every process-wide translation cache (always legal: a cache may be cold).  utils.codeobjects is not a
+    cache: it pins every code object Pony has keyed something by, so that id(code) stays unique; it is emptied
+    only between runs, together with everything that is keyed by those ids."""
     import pony.orm.core as core
     import pony.orm.asttranslation as asttranslation
     import pony.orm.decompiling as decompiling
@@ -57,7 +59,8 @@ def clear_query_caches():
     asttranslation.extractors_cache.clear()
     decompiling.ast_cache.clear()
     ormtypes.raw_sql_cache.clear()
-    utils.codeobjects.clear()
+    if between_runs:
+        utils.codeobjects.clear()
     utils.lambda_args_cache.clear()
 
 
@@ -90,7 +93,7 @@ def reset(seed):
     import pony.orm.core as core
     import pony.orm.sqltranslation as sqltranslation
     import pony.options as options
-    clear_query_caches()
+    clear_query_caches(between_runs=True)
     core.db_id_counter = itertools.count(1)
     core.num_counter = itertools.count()
     core.attr_id_counter = itertools.count(1)
